@@ -21,7 +21,7 @@ OVERRIDES = K.OVERRIDES
 
 
 def caps(tier):
-    return dict(rest=50, store=3) if tier == "quick" else dict(rest=62, store=4)
+    return dict(rest=42, store=3) if tier == "quick" else dict(rest=52, store=3)
 
 
 def py_strip(data):
